@@ -77,8 +77,13 @@ def main():
         sh("git -C /repo worktree remove --force %s" % scratch)
         shutil.rmtree(scratch, ignore_errors=True)
         tag = hashlib.sha1(scratch.encode()).hexdigest()[:10]
-        for d in os.listdir(os.path.join(VERIF, "build")):
-            if d.endswith(tag): shutil.rmtree(os.path.join(VERIF, "build", d), ignore_errors=True)
+        sb = os.path.join(VERIF, "build", "scratch-" + tag)
+        # keep the replay files of this run next to the result, drop the rest (cargo target directories, case files)
+        rep = os.path.join(sb, "replays")
+        if os.path.isdir(rep):
+            os.makedirs(os.path.join(outdir, "replays"), exist_ok=True)
+            for f in sorted(os.listdir(rep))[:6]: shutil.copy(os.path.join(rep, f), os.path.join(outdir, "replays", f))
+        shutil.rmtree(sb, ignore_errors=True)
     os.makedirs(outdir, exist_ok=True)
     for src, dst in ((patch, os.path.join(outdir, "patch.diff")), (demo, os.path.join(outdir, "demo.rs"))):
         if os.path.abspath(src) != os.path.abspath(dst): shutil.copy(src, dst)
